@@ -140,7 +140,17 @@ class Bringup(Harness):
                           % (rl2[0], n_rst1 - n_rst0, V), "reset-after-timeout")
                 st.wire.fault = prev_fault
             n1 = len(st.host_requests())
+            seen_cb = []
+            ez.add_callback(lambda name, args: seen_cb.append(name))
+            if V != 4 and not lost_rstack:  # (in the lost-RSTACK variant both ends are already back to the un-negotiated state)
+                # a callback frame the NCP queued (in the negotiated framing) just before it sees the RST: the host receives
+                # it between its RST and the RSTACK; it may be delivered as what it is or dropped, never as another frame
+                ctx.label("frame-in-flight-at-reset")
+                cb = bytes(E.header(V, 0x5A, 0x19, callback=True) + ([0x90] if V < 14 else [0x90, 0, 0, 0]))  # stackStatusHandler
+                loop.call_soon(ncp.ash.submit, cb)
             r3 = await outcome(ez.reset())
+            wrong = [n for n in seen_cb if n not in ("stackStatusHandler", "_reset_controller_application")]
+            ctx.check(not wrong, "a stackStatusHandler frame sent by the v%d NCP just before the reset was handed to the application as %r" % (V, wrong), "frame-misdecoded-during-reset")
             ctx.check(r3[0] == "ok", "second reset failed with %s" % r3[0], "second-reset-fails")
             r4 = await outcome(ez.version())
             ctx.check(r4[0] == "ok", "version negotiation after the second reset failed with %s (NCP v%d)" % (r4[0], V), "renegotiation-fails")
